@@ -55,6 +55,21 @@ def gen(ctx, tier, rng):
             L.append("add %s %s" % (hexs(x), hexs(one)))
             z = bytes(k) + rb(rng, n - k)
             L.append("sub %s %s" % (hexs(z), hexs(one)))
+        # the wrap cases of the per-byte step: the carry / borrow arriving at a run where the SECOND operand is all-ones (resp. the sum is
+        # all-ones): b = (low part forcing a carry or borrow) || ff*r || rest, for every run start and several run lengths
+        for s_ in (range(0, n) if (tier == "thorough" or n <= 40) else [0, 1, 7, 8, 9, 15, 16, 17, 31, 32, n - 9, n - 8, n - 1]):
+            if s_ < 0 or s_ >= n:
+                continue
+            for r in sorted(set([1, 2, 7, 8, 9, 16, n - s_ - 1, n - s_]) & set(range(1, n - s_ + 1))):
+                lo_a = bytes(s_); lo_b = (b"\x01" + bytes(s_ - 1)) if s_ else b""
+                rest = rb(rng, n - s_ - r)
+                bb = lo_b + b"\xff" * r + rest
+                aa = lo_a + rb(rng, r) + rb(rng, n - s_ - r)
+                L.append("sub %s %s" % (hexs(aa), hexs(bb)))                  # borrow (if s_ > 0) reaches an all-ones run of b
+                L.append("sub %s %s" % (hexs(bytes(n)), hexs(bb)))
+                aa2 = (b"\xff" * s_) + rb(rng, n - s_)
+                L.append("add %s %s" % (hexs(aa2), hexs(bb)))                  # carry reaches an all-ones run of b
+                L.append("add %s %s" % (hexs(bb), hexs(aa2)))
         # one-bit differences at every position
         step = 1 if (tier == "thorough" or n <= 24 or n == 64) else 7
         for bit in range(0, 8 * n, step):
